@@ -8,15 +8,15 @@ import (
 
 // VerifC17_Glue: the repository's own part of the path download -> parse -> store (first load, refresh,
 // refresh of an unchanged list, rejected refresh; both backends; every signature mode) never takes the
-// downloaded document - 1 MiB in the world model - into memory as a whole: no allocation beyond 80 KiB
-// plus fixed buffers happens in repository code between the download and the swap.
+// downloaded document - 1 MiB in the world model - into memory as a whole: no allocation of half the
+// document size or more happens in repository code between the download and the swap.
 func VerifC17_Glue() {
 	installWorld()
 	sig := config.SignatureValidationMode(verifrt.Choose(3))
 	w := newWorld(verifrt.Choose(2) == 1, config.CRLFetchModeActively, false, sig)
 	s1, s2 := sym("s1"), sym("s2")
 	loc := &core.CRLLocations{CRLDistributionPoints: []string{url1}}
-	verifrt.AllocBudget(81920 + 17 + 4096 + 512)
+	verifrt.AllocBudget(verifrt.DocSize / 2) // any buffer that follows the document size is at least the document
 	servers[url1] = &server{up: true, crl: newCRL("L1", "CN=I1", s1)}
 	_, err := w.repo.AddCRL(loc, chainsOf(cert("CN=I1", s1, url1)))
 	verifrt.Assert(err == nil, "first load")
